@@ -764,13 +764,17 @@ def lower_bound(e):
         return e[1]
     if e[0] == "call" and re.search(r"cmp::max$|Ord::max$", e[1]):
         return max(lower_bound(a) for a in e[2])
+    if e[0] == "call" and re.search(r"cmp::min$|Ord::min$", e[1]):
+        return min(lower_bound(a) for a in e[2])
+    if e[0] == "call" and re.search(r"Ord::clamp$", e[1]) and len(e[2]) == 3:
+        return lower_bound(e[2][1])
     if e[0] == "bin" and e[1] == "Add":
         return lower_bound(e[2]) + lower_bound(e[3])
     return 0
 
 
 def progress(ctx, facts):
-    ctx.rule("PROGRESS: Batch::read_from requests count >= 1 records (provable lower bound of the count expression); Single / Length readers request exactly Size bytes")
+    ctx.rule("PROGRESS: Batch::read_from requests count >= 1 records (provable lower bound of the count expression) and, evaluated for record sizes 1..9 and every contiguous length, never more than the complete contiguous records (beyond one); Single / Length readers request exactly Size bytes")
     b = facts.bodies.get(f"<{IN}Batch as {IN}Mode>::read_from")
     if b is None:
         ctx.missing("PROGRESS", "Batch::read_from")
@@ -782,6 +786,23 @@ def progress(ctx, facts):
         else:
             e = flow.expr_of(b, cs[0]["args"][1])
             lb = lower_bound(e)
+            # and never more than what is contiguous (beyond one record): a larger request goes through the slow path or
+            # waits for bytes that may belong to the next poll although complete records are already there
+            from rules.C13 import ieval, NoEval
+            CL = ("call", BD + "contiguous_len", (("arg", 1),))
+            bad = None
+            try:
+                for sz in range(1, 10):
+                    for c in range(0, 5 * sz + 3):
+                        n = ieval(e, {CL: c, ("const", "typenum::Unsigned::USIZE"): sz})
+                        if n < 1 or (n > 1 and n * sz > c):
+                            bad = f"record size {sz}, {c} contiguous bytes: the reader asks for {n} records, more than the {c // sz} complete ones that are contiguous: at the end of the input complete records stay unread and are reported as trailing bytes"
+                            break
+                    if bad:
+                        break
+            except NoEval as ex:
+                bad = f"cannot evaluate the count expression ({ex})"
+            ctx.ob("PROGRESS", "Batch:count-fits-contiguous", bad is None, "1 <= count and count * Size <= contiguous bytes (beyond one record) for sizes 1..9" if bad is None else bad, site_of(b))
             ctx.ob("PROGRESS", "Batch:count>=1", lb >= 1, f"count has lower bound {lb}" if lb >= 1 else "the Batch reader can ask for 0 records: a record that straddles two chunks is never assembled (stall that depends on chunking)", site_of(b))
     rm = facts.bodies.get(BD + "read_multi")
     usz = ("const", "typenum::Unsigned::USIZE")
